@@ -87,7 +87,12 @@ def codec_part(spec, acc):
                 for t_ in ("8", "9", "35", "10", "52", "49", "56"):
                     if t_ in dm:
                         del dm[t_]
-                dm[43] = "Y"
+                asnew = rnd.random() < 0.5
+                if asnew:
+                    del dm[34]            # relayed as a new message: the refusal must not cost the session a number either
+                else:
+                    dm[43] = "Y"
+                n_before_marker = sess.next_num_out
                 try:
                     out = codec.encode(dm, sess)
                     if "RepeatingTagError" in out or "<class" in out:
@@ -95,6 +100,9 @@ def codec_part(spec, acc):
                 except Exception as e:
                     acc.oracle("codec-refusal")
                     acc.addmap("codec_refusals", "marker:" + type(e).__name__)
+                    if sess.next_num_out != n_before_marker:
+                        acc.violation("refusal-consumed-a-number", f"the encoder refused a message carrying the repeated-tag marker ({type(e).__name__}) but the "
+                                      f"session counter went {n_before_marker} -> {sess.next_num_out}", witness, cid)
         if c >= 0 and rnd.random() < 0.08:
             # first a message the encoder must refuse half-way (PossDup / SequenceReset without a number): whatever it did
             # to the shared codec must not leak into the next frame, which is encoded right below
